@@ -562,7 +562,6 @@ func spliceVerdicts(paths [][]Cond, chain []*ssa.Call, depth int) [][]Cond {
 	return out
 }
 
-
 // SpliceVerdicts: the deep alternatives of one path's conditions (see
 // ReachCondsDeep).
 func SpliceVerdicts(conds []Cond) [][]Cond {
